@@ -59,14 +59,36 @@ pub fn token_to_tok<R: RuleType>(t: &Token<'_, R>) -> Tok {
     Tok { rule: format!("{:?}", t.rule), start: t.span.start(), end: t.span.end(), children: t.children.iter().map(token_to_tok).collect() }
 }
 
-fn payload(e: Box<dyn std::any::Any + Send>) -> (String, String) {
-    if let Some(b) = e.downcast_ref::<pest_typed::verif::StepBudgetExceeded>() {
-        ("step-budget".into(), format!("exceeded at tick {}", b.0))
-    } else if e.downcast_ref::<pest_typed::verif::BadCursorAbort>().is_some() {
-        ("bad-cursor".into(), "cursor left its input (see hook report)".into())
-    } else {
-        ("panic".into(), vutil::panic_text(&*e))
+/// Thin layer over `pest_typed::verif` so that the recorder also builds without the hooks.
+pub mod hooks {
+    use crate::obs::HookObs;
+    #[cfg(feature = "hooks")]
+    pub fn reset(budget: u64, trace: bool) {
+        pest_typed::verif::reset(budget, trace)
     }
+    #[cfg(not(feature = "hooks"))]
+    pub fn reset(_budget: u64, _trace: bool) {}
+    #[cfg(feature = "hooks")]
+    pub fn take() -> HookObs {
+        super::hook_obs(pest_typed::verif::take())
+    }
+    #[cfg(not(feature = "hooks"))]
+    pub fn take() -> HookObs {
+        HookObs::default()
+    }
+    pub const ENABLED: bool = cfg!(feature = "hooks");
+}
+
+fn payload(e: Box<dyn std::any::Any + Send>) -> (String, String) {
+    #[cfg(feature = "hooks")]
+    {
+        if let Some(b) = e.downcast_ref::<pest_typed::verif::StepBudgetExceeded>() {
+            return ("step-budget".into(), format!("exceeded at tick {}", b.0));
+        } else if e.downcast_ref::<pest_typed::verif::BadCursorAbort>().is_some() {
+            return ("bad-cursor".into(), "cursor left its input (see hook report)".into());
+        }
+    }
+    ("panic".into(), vutil::panic_text(&*e))
 }
 
 pub fn guard<T>(f: impl FnOnce() -> Res<T>) -> Res<T> {
@@ -96,6 +118,7 @@ pub fn err_obs<R: RuleType>(e: &pest_typed::error::Error<R>) -> ErrObs {
     }
 }
 
+#[cfg(feature = "hooks")]
 pub fn hook_obs(r: pest_typed::verif::Report) -> HookObs {
     HookObs {
         ticks: r.ticks,
@@ -231,7 +254,7 @@ where
 {
     let lite = groups & !(grp::GETTERS | grp::WALK | grp::TRAVERSAL);
     let parse_partial = guard(|| {
-        pest_typed::verif::reset(budget, false);
+        hooks::reset(budget, false);
         match T::try_parse_partial(input) {
             Ok((rest, node)) => {
                 let end = rest.byte_offset();
@@ -248,27 +271,27 @@ where
         }
     });
     let check_partial = guard(|| {
-        pest_typed::verif::reset(budget, false);
+        hooks::reset(budget, false);
         match T::try_check_partial(input) {
             Ok(rest) => Res::Ok(rest.byte_offset()),
             Err(e) => Res::Err(err_obs(&e)),
         }
     });
     let parse = guard(|| {
-        pest_typed::verif::reset(budget, false);
+        hooks::reset(budget, false);
         match T::try_parse(input) {
             Ok(node) => Res::Ok(node_obs(&node, usize::MAX, x, lite)),
             Err(e) => Res::Err(err_obs(&e)),
         }
     });
     let check = guard(|| {
-        pest_typed::verif::reset(budget, false);
+        hooks::reset(budget, false);
         match T::try_check(input) {
             Ok(()) => Res::Ok(()),
             Err(e) => Res::Err(err_obs(&e)),
         }
     });
-    pest_typed::verif::reset(u64::MAX, false);
+    hooks::reset(u64::MAX, false);
     FormObs { parse_partial, check_partial, parse, check }
 }
 
@@ -277,7 +300,7 @@ fn with_obs<'i, R: RuleType, T: ParsableTypedNode<'i, R>>(s: &'i str, parse_path
     let mut stack: Stack<Span<'i>> = Stack::new();
     let input = s.as_input();
     let mut tracker: Tracker<'i, R> = Tracker::new(input);
-    pest_typed::verif::reset(budget, true);
+    hooks::reset(budget, true);
     let r = catch_unwind(AssertUnwindSafe(|| {
         if parse_path {
             T::try_parse_partial_with(input, &mut stack, &mut tracker).map(|(i, _)| i.byte_offset())
@@ -285,8 +308,8 @@ fn with_obs<'i, R: RuleType, T: ParsableTypedNode<'i, R>>(s: &'i str, parse_path
             T::try_check_partial_with(input, &mut stack, &mut tracker).map(|i| i.byte_offset())
         }
     }));
-    w.hooks = hook_obs(pest_typed::verif::take());
-    pest_typed::verif::reset(u64::MAX, false);
+    w.hooks = hooks::take();
+    hooks::reset(u64::MAX, false);
     match r {
         Ok(end) => w.end = end,
         Err(e) => w.panicked = Some(payload(e)),
@@ -317,10 +340,10 @@ where
     if g & grp::STR != 0 {
         // hooks of the plain parse_partial are kept separately
         out.s = form::<R, T, &'i str>(inp.s, &x, g, inp.budget);
-        pest_typed::verif::reset(inp.budget, false);
+        hooks::reset(inp.budget, false);
         let _ = catch_unwind(AssertUnwindSafe(|| T::try_parse_partial(inp.s).map(|_| ())));
-        out.hooks = hook_obs(pest_typed::verif::take());
-        pest_typed::verif::reset(u64::MAX, false);
+        out.hooks = hooks::take();
+        hooks::reset(u64::MAX, false);
     }
     if g & grp::VALUE != 0 {
         // the same input object parsed twice: ==, hash, Debug
